@@ -649,9 +649,13 @@ fn oe_corpus() -> Vec<OeCase> {
             ops: vec![
                 OeOp::Mint { who: BUYERS[0].into(), funds: nat(100) }, // before start
                 OeOp::MintTo { who: CREATOR.into(), recipient: BUYERS[1].into(), funds: nat(40) },
+                OeOp::At { secs: 3000, nanos: -1 },
+                OeOp::Mint { who: BUYERS[0].into(), funds: nat(100) },
                 OeOp::At { secs: 3000, nanos: 0 },
                 OeOp::Mint { who: BUYERS[0].into(), funds: nat(100) },
                 OeOp::Mint { who: BUYERS[0].into(), funds: nat(99) },
+                OeOp::Mint { who: BUYERS[0].into(), funds: vec![(NATIVE.to_string(), 100), (IBC.to_string(), 1)] },
+                OeOp::Mint { who: BUYERS[0].into(), funds: vec![(IBC.to_string(), 100)] },
                 OeOp::MintTo { who: STRANGER.into(), recipient: BUYERS[1].into(), funds: nat(40) },
                 OeOp::Mint { who: BUYERS[2].into(), funds: nat(100) },
                 OeOp::Mint { who: BUYERS[2].into(), funds: nat(100) },
@@ -667,13 +671,14 @@ fn oe_corpus() -> Vec<OeCase> {
         let mut cfg = OeCfg::basic(variant);
         cfg.num_tokens = Some(6);
         let mut ops = vec![];
-        for (s, n) in [(5000u64, -1i64), (5000, 0), (5000, 1)] {
+        // the price in force: 100, lowered to 90 one nanosecond before the end (later updates must fail)
+        for (s, n, p) in [(5000u64, -1i64, 100u128), (5000, 0, 90), (5000, 1, 90)] {
             ops.push(OeOp::At { secs: s, nanos: n });
             ops.push(OeOp::BurnRemaining { who: STRANGER.into() });
             ops.push(OeOp::Purge { who: STRANGER.into() });
-            ops.push(OeOp::Mint { who: BUYERS[0].into(), funds: nat(100) });
+            ops.push(OeOp::Mint { who: BUYERS[0].into(), funds: nat(p) });
             ops.push(OeOp::MintTo { who: CREATOR.into(), recipient: BUYERS[1].into(), funds: nat(40) });
-            ops.push(OeOp::UpdateMintPrice { who: CREATOR.into(), price: 90 - (n + 1) as u128 });
+            ops.push(OeOp::UpdateMintPrice { who: CREATOR.into(), price: if n == -1 { 90 } else { 89 } });
             ops.push(OeOp::UpdateEndTime { who: CREATOR.into(), secs: 6000, nanos: 0 });
             if n == -1 {
                 // put the end time back
@@ -681,7 +686,7 @@ fn oe_corpus() -> Vec<OeCase> {
             }
         }
         ops.push(OeOp::BurnRemaining { who: CREATOR.into() });
-        ops.push(OeOp::Mint { who: BUYERS[0].into(), funds: nat(89) });
+        ops.push(OeOp::Mint { who: BUYERS[0].into(), funds: nat(90) });
         ops.push(OeOp::MintTo { who: CREATOR.into(), recipient: BUYERS[1].into(), funds: nat(40) });
         ops.push(OeOp::BurnRemaining { who: CREATOR.into() });
         v.push(OeCase::Oe { cfg, ops });
@@ -886,6 +891,18 @@ fn gen_oe_case(rng: &mut Rng, variant: usize, thorough: bool) -> OeCase {
     cfg.fp.mint_fee_bps = *rng.pick(&[0u64, 1, 1000, 3333, 10000]);
     cfg.fp.airdrop_price = *rng.pick(&[40u128, 40, 7, if cfg.num_tokens.is_some() { 0 } else { 40 }]);
     cfg.fp.airdrop_fee_bps = *rng.pick(&[0u64, 5000, 10000]);
+    if rng.chance(1, 6) {
+        cfg.fp.denom = IBC.to_string();
+    }
+    let dn = cfg.fp.denom.clone();
+    let other = if dn == NATIVE { IBC.to_string() } else { NATIVE.to_string() };
+    let fund = |a: u128| -> Vec<(String, u128)> {
+        if a == 0 {
+            vec![]
+        } else {
+            vec![(dn.clone(), a)]
+        }
+    };
     let compat = OeWl::compatible(&v);
     cfg.wl = match rng.below(3) {
         0 => OeWl::None,
@@ -906,7 +923,7 @@ fn gen_oe_case(rng: &mut Rng, variant: usize, thorough: bool) -> OeCase {
             start_in: st,
             end_in: st + *rng.pick(&[50u64, 300]),
             price: *rng.pick(&[49u128, 50, 60]),
-            ibc: rng.chance(1, 8),
+            ibc: (cfg.fp.denom == IBC) != rng.chance(1, 8),
         });
     }
     let air = cfg.fp.airdrop_price;
@@ -933,10 +950,11 @@ fn gen_oe_case(rng: &mut Rng, variant: usize, thorough: bool) -> OeCase {
         let cur = if in_wl { cfg.wl_price } else { price };
         let pay = |rng: &mut Rng, p: u128| -> Vec<(String, u128)> {
             match rng.below(20) {
-                0 => nat(p + 1),
-                1 => nat(p.saturating_sub(1)),
-                2 => vec![(IBC.to_string(), p.max(1))],
-                _ => nat(p),
+                0 => fund(p + 1),
+                1 => fund(p.saturating_sub(1)),
+                2 => vec![(other.clone(), p.max(1))],
+                3 => vec![(NATIVE.to_string(), p.max(1)), (IBC.to_string(), 1)],
+                _ => fund(p),
             }
         };
         let who_any = *rng.pick(&[BUYERS[0], BUYERS[1], BUYERS[2], STRANGER, CREATOR]);
@@ -990,14 +1008,21 @@ fn gen_oe_case(rng: &mut Rng, variant: usize, thorough: bool) -> OeCase {
         };
         ops.push(op);
     }
+    // the end-time instant itself (when the clock has not passed it yet)
+    if cfg.end_in_secs.is_some() && t < 5000 && rng.chance(2, 3) {
+        ops.push(OeOp::At { secs: 5000, nanos: *rng.pick(&[-1i64, 0, 0, 1]) });
+        ops.push(OeOp::Mint { who: (*rng.pick(&buyers)).into(), funds: fund(price) });
+        ops.push(OeOp::MintTo { who: CREATOR.into(), recipient: BUYERS[0].into(), funds: fund(air) });
+    }
     // closing probes: everything that could create a token after the end / burn / sell-out
     if cfg.end_in_secs.is_some() {
         ops.push(OeOp::At { secs: 6001, nanos: 0 });
     }
     ops.push(OeOp::BurnRemaining { who: CREATOR.into() });
-    ops.push(OeOp::Mint { who: STRANGER.into(), funds: nat(price) });
-    ops.push(OeOp::MintTo { who: CREATOR.into(), recipient: BUYERS[0].into(), funds: nat(air) });
+    ops.push(OeOp::Mint { who: STRANGER.into(), funds: fund(price) });
+    ops.push(OeOp::MintTo { who: CREATOR.into(), recipient: BUYERS[0].into(), funds: fund(air) });
     ops.push(OeOp::Purge { who: STRANGER.into() });
+    drop(fund);
     OeCase::Oe { cfg, ops }
 }
 
@@ -1052,6 +1077,34 @@ fn gen_base_case(rng: &mut Rng) -> OeCase {
     OeCase::Base { cfg, ops }
 }
 
+fn oe_ops(c: &OeCase) -> &Vec<OeOp> {
+    match c {
+        OeCase::Oe { ops, .. } | OeCase::Base { ops, .. } => ops,
+    }
+}
+fn oe_with_ops(c: &OeCase, ops: Vec<OeOp>) -> OeCase {
+    match c {
+        OeCase::Oe { cfg, .. } => OeCase::Oe { cfg: cfg.clone(), ops },
+        OeCase::Base { cfg, .. } => OeCase::Base { cfg: cfg.clone(), ops },
+    }
+}
+/// greedy shrinking: drop every op whose removal keeps a violation with the same key
+fn shrink_oe(c: &OeCase, key: &str) -> OeCase {
+    let has = |c: &OeCase| run_oe_case(c).violations.iter().any(|(k, _)| k == key);
+    let mut cur = c.clone();
+    let mut i = oe_ops(&cur).len();
+    while i > 0 {
+        i -= 1;
+        let mut ops = oe_ops(&cur).clone();
+        ops.remove(i);
+        let t = oe_with_ops(&cur, ops);
+        if has(&t) {
+            cur = t;
+        }
+    }
+    cur
+}
+
 /// runs part 2; returns (#cases, #violations)
 fn run_oe_part(a: &Args, out: &OutDir, rep: &mut Report, replay: Option<OeCase>, nviol_before: usize) -> (usize, usize) {
     let cases: Vec<OeCase> = match replay {
@@ -1086,9 +1139,11 @@ fn run_oe_part(a: &Args, out: &OutDir, rep: &mut Report, replay: Option<OeCase>,
         for (key, what) in r.violations.iter().take(3) {
             nviol += 1;
             if nviol_before + nviol <= 40 {
+                // the first few failing histories are shrunk (ops removed while the same violation persists)
+                let shrunk = if nviol <= 3 && a.replay.is_none() { shrink_oe(c, key) } else { c.clone() };
                 let body = format!(
                     "{{\n \"property\": \"C01\",\n \"part\": \"oe\",\n \"case\": {},\n \"violation\": {}\n}}\n",
-                    serde_json::to_string(c).unwrap(),
+                    serde_json::to_string(&shrunk).unwrap(),
                     serde_json::to_string(what).unwrap()
                 );
                 let path = out.write_replay(&format!("C01-oe-{}.json", nviol), &body);
